@@ -22,7 +22,7 @@ From Coq Require Import List Ascii String Bool PrimFloat Permutation.
 From Verif Require Import Base.Result Base.Str Base.Sexp Base.PyDict Base.Float Model.Tokenizer Model.Domain Model.State
   Model.Trajectory Spec.Pddl Spec.State
   Proofs.C14_Text Proofs.C14_Spec Proofs.C14_Eq Proofs.C14_Main Proofs.C14_Serialize Proofs.C14_Sorted Proofs.C14_Examples
-  Proofs.C10_State Proofs.C10_Sorted.
+  Proofs.C10_State Proofs.C10_Sorted Proofs.C14_Mutate.
 From Verif Require Model.Store Proofs.C07_Sep Proofs.C14_Store.
 Import ListNotations.
 
@@ -115,6 +115,39 @@ Theorem C14_copy_independent : forall (m : Store.mstate) s src,
   (forall l, In l (Store.writes (snd (Store.ev_copy_state m src))) -> fst l = Store.OSt (List.length (Store.sts m))).
 Proof. exact C14_Store.copy_independent. Qed.
 
+(* ---------- a state changed in place (wave 3) ---------- *)
+(* State objects are mutable through their public attributes.  For the model, == is a function of the contents at the
+   moment of the call: a state from which a fact it holds was removed in place (Model/State.discard_fact) is unequal to
+   what it was -- and to every copy taken before --, removing a fact it does not hold changes nothing, adding a fact it
+   does not hold (add_fact, under whatever key) makes it unequal, and putting a removed fact back makes it equal again.
+   That the IMPLEMENTATION is such a function (nothing computed at an earlier call is kept) is checked by the
+   observe-mutate-observe groups of the correspondence. *)
+Theorem C14_mutate_discard : forall (num_text : float -> string) t s, In t (fact_texts s) ->
+  state_eq num_text (discard_fact t s) s = false /\ state_eq num_text s (discard_fact t s) = false.
+Proof. exact discard_unequal. Qed.
+
+Theorem C14_mutate_discard_absent : forall (num_text : float -> string) t s, ~ In t (fact_texts s) ->
+  state_eq num_text (discard_fact t s) s = true.
+Proof. exact discard_absent. Qed.
+
+Theorem C14_mutate_add : forall (num_text : float -> string) key g s,
+  gp_wf g -> all_wf (all_preds s) -> ~ In (gp_untyped g) (fact_texts s) ->
+  state_eq num_text (add_fact key g s) s = false /\ state_eq num_text s (add_fact key g s) = false.
+Proof. exact add_unequal. Qed.
+
+Theorem C14_mutate_discard_add_back : forall (num_text : float -> string) key g s,
+  gp_wf g -> all_wf (all_preds s) -> In (gp_untyped g) (fact_texts s) ->
+  state_eq num_text (add_fact key g (discard_fact (gp_untyped g) s)) s = true /  state_eq num_text s (add_fact key g (discard_fact (gp_untyped g) s)) = true.
+Proof. exact discard_add_back. Qed.
+
+Theorem C14_mutate_copy_keeps_value : forall (num_text : float -> string) t s, In t (fact_texts s) ->
+  state_eq num_text (discard_fact t s) (state_copy s) = false /  state_eq num_text (state_copy s) (discard_fact t (state_copy s)) = false.
+Proof. exact copy_then_discard. Qed.
+
+Theorem C14_mutate_example :
+  gp_wf ex_g1 /\ all_wf (all_preds ex_m) /\ In (gp_untyped ex_g1) (fact_texts ex_m) /  all_preds (discard_fact (gp_untyped ex_g1) ex_m) = [ex_g2] /  ~ In (gp_untyped ex_g1) (fact_texts (discard_fact (gp_untyped ex_g1) ex_m)).
+Proof. exact ex_mutate_hypotheses. Qed.
+
 (* ---------- serialization ---------- *)
 (* State.serialize prints the facts of every predicate group in sorted order of their texts (3ad2e15): it is the
    in-order printer applied to the state with every group sorted, and sorting only permutes the groups *)
@@ -202,6 +235,12 @@ Print Assumptions C14_eq_ieee_witness.
 Print Assumptions C14_copy_value.
 Print Assumptions C14_copy.
 Print Assumptions C14_copy_independent.
+Print Assumptions C14_mutate_discard.
+Print Assumptions C14_mutate_discard_absent.
+Print Assumptions C14_mutate_add.
+Print Assumptions C14_mutate_discard_add_back.
+Print Assumptions C14_mutate_copy_keeps_value.
+Print Assumptions C14_mutate_example.
 Print Assumptions C14_serialize_sorted.
 Print Assumptions C14_serialize_parse.
 Print Assumptions C14_serialize_text_equal.
